@@ -11,6 +11,7 @@ calls with the output reader at the atomicity the locks of client_runner.go give
 an arbitrary list is a schedule.
 -/
 import ConfModel.Lemmas.ClientRunner
+import ConfModel.Lemmas.ClientWait
 namespace ConfModel.Props.C10
 open ConfModel.ClientRunner ConfModel.ClientRunner.Spec
 
@@ -237,6 +238,54 @@ theorem steps_terminate (names : Nat → Name) (ids : List Nat) (hn : ids.Nodup)
 theorem wait_returns (s : State) (ht : Terminal s) : waitEnabled s = true := by
   simp [waitEnabled, ht.1]
 
+/-! ### waiting for completion returns — whatever the client process does
+
+`no_deadlock` above is relative to the process having exited.  `waitForResponses` itself must not
+depend on that: a client may sit for ever in a write on its output, which the reader stopped reading
+after the first message it could not accept (an in-process client cannot be killed: `abort()` only
+cancels a context).  The model of `waitForResponses` and of the two `result()` implementations
+(`Model/ClientRunner.lean`, `WSt`/`wstep`) has the end of the process as an event of the environment
+(`pGone`) that need never come. -/
+
+/-- **waitForResponses is never left waiting for the process.**  For an in-process client and for
+an OS process, in every state reached by any event list (the reader finishing at any time, the process
+ending at any time **or never**, timers firing in any order): once the output reader has finished
+and until `waitForResponses` has returned, a step of the runner's own is enabled — `<-c.done` passes,
+the 3 s timer fires and aborts, `result()` gives up after `gracefulShutdownPeriod` (in-process) or the
+abort goroutine gives up after closing the pipes (OS process), the result is received. -/
+theorem wait_never_left_waiting (cfg : WaitCfg) (hb : cfg.localResultBounded = true) (evs : List WEv) :
+    let s := wrun cfg winit evs
+    s.readerDone = true → s.wpc ≠ .returned → ∃ e, e.internal = true ∧ (wstep cfg s e).isSome = true := by
+  intro s hd hr
+  have hinv : WInv s := winv_run cfg evs _ winv_init
+  obtain ⟨e, he, hen⟩ := wprogress cfg hb s hinv hd hr
+  exact ⟨e, wown_internal e he, hen⟩
+
+/-- … and each of these steps lowers the measure `wmu`: at most `wmu s ≤ 7` of them happen. -/
+theorem wait_steps_terminate (cfg : WaitCfg) (evs : List WEv) (s' : WSt) (e : WEv) (hi : e.internal = true)
+    (hs : wstep cfg (wrun cfg winit evs) e = some s') : wmu s' < wmu (wrun cfg winit evs) :=
+  wstep_lt cfg _ s' e hi (winv_run cfg evs _ winv_init) hs
+
+/-- **waiting for completion returns** although the client process never ends: from any reachable
+state with the reader finished, the runner's own steps alone (`wsettle`, no `pGone`) take
+`waitForResponses` to its return. -/
+theorem wait_returns_without_exit (cfg : WaitCfg) (hb : cfg.localResultBounded = true) (evs : List WEv) :
+    let s := wrun cfg winit evs
+    s.readerDone = true → (wsettle cfg s (wmu s)).wpc = .returned := by
+  intro s hd
+  exact wsettle_returns cfg hb (wmu s) s (winv_run cfg evs _ winv_init) hd (Nat.le_refl _)
+
+/-- What the bound in `localProcess.result()` is for: if it only waited for the client function to
+return, a wedged in-process client would leave `waitForResponses` (and `stop`) blocked for ever — the
+reader has finished, the 3 s timer has fired, the client was aborted, and no step but the end of the
+process is enabled.  An OS process does not need that bound (its abort goroutine gives up). -/
+theorem result_must_be_bounded :
+    (wrun waitUnbounded winit [.rDone, .passDone, .tGrace, .t3s]).wpc = .prodded ∧
+    (∀ e : WEv, e ≠ .pGone → wstep waitUnbounded (wrun waitUnbounded winit [.rDone, .passDone, .tGrace, .t3s]) e = none) ∧
+    (wsettle (waitCode .inProcess) (wrun (waitCode .inProcess) winit [.rDone, .passDone, .tGrace, .t3s]) 2).wpc = .returned ∧
+    (wsettle { kind := .osProcess, localResultBounded := false } (wrun { kind := .osProcess, localResultBounded := false } winit [.rDone]) 7).wpc = .returned := by
+  refine ⟨by decide, fun e he => by cases e <;> first | decide | exact absurd rfl he, by decide, by decide⟩
+
 /-- As long as the process runs it can exit (the environment is never blocked by the runner). -/
 theorem exit_enabled (names : Nat → Name) (s : State) (h : s.proc = .running) :
     (step names s (.pExit 1)).isSome = true := by
@@ -346,5 +395,20 @@ example : let s := run (fun _ => 5) init [.sStart 0, .sLock 0, .sRegister 0, .rR
 example : let s := run (fun _ => 5) init [.sStart 0, .sLock 0, .sRegister 0, .pExit 0,
       .sWriteFail 0, .sSetErr 0, .rRecvEOF, .rCloseSend, .rDrain, .rDone, .sStart 1]
     s.rpc = .done ∧ s.spc 0 = .ret (.err .closed) ∧ cbsOf s 0 = [] ∧ s.spc 1 = .ret (.err .closed) := by decide
+
+/-- the hypotheses of `wait_never_left_waiting` / `wait_returns_without_exit` are satisfiable: the
+reader has finished, the client never ends; for both kinds of process seven own steps at most lead
+to the return, the in-process one through the grace timer of `result()` -/
+example : (waitCode .inProcess).localResultBounded = true ∧ (wrun (waitCode .inProcess) winit [.rDone]).readerDone = true ∧
+    (wrun (waitCode .inProcess) winit [.rDone]).wpc = .waitDone ∧ wmu (wrun (waitCode .inProcess) winit [.rDone]) = 7 ∧
+    (wsettle (waitCode .inProcess) (wrun (waitCode .inProcess) winit [.rDone]) 7).wpc = .returned ∧
+    (wsettle (waitCode .inProcess) (wrun (waitCode .inProcess) winit [.rDone]) 7).procGone = false ∧
+    (wsettle (waitCode .osProcess) (wrun (waitCode .osProcess) winit [.rDone]) 7).wpc = .returned := by decide
+/-- `wait_steps_terminate` on a concrete step: the 3 s timer lowers the measure from 6 to 5 -/
+example : WEv.t3s.internal = true ∧ wmu (wrun (waitCode .inProcess) winit [.rDone, .passDone]) = 6 ∧
+    (wstep (waitCode .inProcess) (wrun (waitCode .inProcess) winit [.rDone, .passDone]) .t3s).map wmu = some 5 := by decide
+/-- a client that ends by itself: no timer is needed -/
+example : (wrun (waitCode .inProcess) winit [.pGone, .rDone, .passDone, .deliver, .gotResult]).wpc = .returned ∧
+    (wrun (waitCode .inProcess) winit [.pGone, .rDone, .passDone, .deliver, .gotResult]).aborted = false := by decide
 
 end ConfModel.Props.C10
